@@ -39,7 +39,7 @@ var freeBin = flag.String("bin-free", "", "the same harness built without the sc
 var freeProg = flag.String("free-prog", "", "internal: run one program free-running and print the result")
 
 type prog struct {
-	Kind string `json:"kind"` // concurrent | reuse | unrel | mixed
+	Kind string `json:"kind"` // concurrent | reuse | unrel | mixed | interleave
 	// concurrent: one letter per creator thread, R = reliable, U = unreliable
 	Client string `json:"client,omitempty"`
 	Server string `json:"server,omitempty"`
@@ -348,6 +348,83 @@ func outcome(s string) {
 	mu.Lock()
 	freeOutcome = s
 	mu.Unlock()
+}
+
+// ---- two tubes, interleaved multi-frame streams ----
+
+// runInterleave: one side opens two reliable tubes and writes, alternating between them, four
+// 16-byte chunks on each (every chunk names its tube and its position, so every frame of the run
+// has different bytes); the other side accepts both and reads each to the end. With packet
+// faults (p.K) frames of one tube are parked out of order while frames of the other tube keep
+// arriving. Oracle: what is read from a tube is at every moment a prefix of what was written on
+// that tube, and complete in the end.
+func runInterleave(p prog) {
+	g := newRig(p)
+	opener, other := g.mux(p.Side), g.mux(1-p.Side)
+	const chunks = 4
+	want := map[byte]string{}
+	var wg vsync.WaitGroup
+	var ts [2]tubes.Tube
+	for i := range ts {
+		t, err := opener.CreateReliableTube(tubes.TubeType(40 + i))
+		if err != nil {
+			fail("create tube %d: %v (faults %v)", i, err, g.faultList())
+			g.stop(true)
+			return
+		}
+		ts[i] = t
+		for c := 0; c < chunks; c++ {
+			want[t.GetID()] += string(marker(fmt.Sprintf("t%d.%d", i, c), 16))
+		}
+	}
+	wg.Add(1)
+	vrt.Go(func() { // writer: alternates between the tubes, then closes both
+		defer wg.Done()
+		for c := 0; c < chunks; c++ {
+			for i, t := range ts {
+				if _, err := t.Write(marker(fmt.Sprintf("t%d.%d", i, c), 16)); err != nil {
+					fail("write on tube %d: %v (faults %v)", i, err, g.faultList())
+					return
+				}
+			}
+		}
+		for _, t := range ts {
+			t.Close()
+		}
+	})
+	for i := 0; i < 2; i++ {
+		wg.Add(1)
+		vrt.Go(func() { // acceptor: one reader per offered tube
+			defer wg.Done()
+			t, err := other.Accept()
+			if err != nil {
+				fail("accept: %v (faults %v)", err, g.faultList())
+				return
+			}
+			w := want[t.GetID()]
+			got := ""
+			buf := make([]byte, 64)
+			t.SetReadDeadline(vrt.Now().Add(150 * time.Second))
+			for {
+				n, err := t.Read(buf)
+				got += string(buf[:n])
+				if !strings.HasPrefix(w, got) {
+					fail("tube id %d delivered %q; what was written on it is %q: bytes of another tube or frame (faults %v)", t.GetID(), got, w, g.faultList())
+					break
+				}
+				if err != nil {
+					if err != io.EOF || got != w {
+						fail("tube id %d: read ended with %v after %d of %d bytes although the link has been faultless since the first packets (faults %v)", t.GetID(), err, len(got), len(w), g.faultList())
+					}
+					break
+				}
+			}
+			t.Close()
+		})
+	}
+	wg.Wait()
+	outcome("interleave done")
+	g.stop(true)
 }
 
 // ---- identifier reuse ----
@@ -738,6 +815,8 @@ func scenario(arg string) *vx.Scenario {
 				runUnrel(p)
 			case "mixed":
 				runMixed(p)
+			case "interleave":
+				runInterleave(p)
 			}
 		}}
 }
@@ -774,6 +853,8 @@ func (p prog) key() string {
 		return fmt.Sprintf("reuse:unrel=%v,side=%d,gap=%d,wdelay=%d", p.Unrel, p.Side, p.Gap, p.WDelay)
 	case "mixed":
 		return fmt.Sprintf("mixed:close-unrel=%v,side=%d,gap=%d", p.Unrel, p.Side, p.Gap)
+	case "interleave":
+		return fmt.Sprintf("interleave:side=%d", p.Side)
 	}
 	return fmt.Sprintf("unrel:sizes=%v", p.Sizes)
 }
@@ -825,17 +906,21 @@ func phases(thorough bool) []phase {
 			}
 		}
 	}
-	det := append(append(append(append([]prog{}, conc...), reuse0...), unrel0...), mixed...)
+	inter0 := []prog{{Kind: "interleave", Side: 0}, {Kind: "interleave", Side: 1}}
+	interK := []prog{{Kind: "interleave", Side: 0, K: 12}, {Kind: "interleave", Side: 1, K: 12}}
+	det := append(append(append(append(append([]prog{}, conc...), reuse0...), unrel0...), mixed...), inter0...)
 	ph := []phase{{"all programs, faithful link, default schedule", det, vx.Bounds{}, 0, 0}}
 	if !thorough {
 		ph = append(ph,
 			phase{"concurrent creation, one scheduling deviation of any kind", conc, vx.Bounds{1, 1, 1, 1, 0}, 1, 0},
 			phase{"concurrent creation (<=3 tubes), two scheduling deviations among the first 60 choice points", concSmall, vx.Bounds{2, 2, 2, 1, 0}, 2, 60},
 			phase{"identifier reuse, one packet fault among the first 8 packets of each direction", reuseK, vx.Bounds{0, 0, 0, 0, 1}, 1, 0},
+			phase{"two reliable tubes with interleaved multi-frame streams, one packet fault among the first 12 packets of each direction", interK, vx.Bounds{0, 0, 0, 0, 1}, 1, 0},
 			phase{"unreliable messages, two packet faults among the first 6 packets of each direction", unrelK, vx.Bounds{0, 0, 0, 0, 2}, 2, 0})
 	} else {
 		// the fault phases first: the soft budget then cuts the (much larger) scheduling phases
 		ph = append(ph,
+			phase{"two reliable tubes with interleaved multi-frame streams, two packet faults among the first 12 packets of each direction", interK, vx.Bounds{0, 0, 0, 0, 2}, 2, 0},
 			phase{"identifier reuse, two packet faults among the first 8 packets of each direction", reuseK, vx.Bounds{0, 0, 0, 0, 2}, 2, 0},
 			phase{"unreliable messages, three packet faults among the first 6 packets of each direction", unrelK, vx.Bounds{0, 0, 0, 0, 3}, 3, 0},
 			phase{"identifier reuse, one packet fault and one scheduling deviation", reuseK, vx.Bounds{1, 1, 1, 0, 1}, 2, 600},
@@ -950,7 +1035,7 @@ func main() {
 	r.EvalN(execs)
 	r.Graph(int64(traces), points, execs)
 	r.Set("distinct_outcomes", len(outcomes))
-	r.SetRule("two real muxers under the deterministic scheduler and virtual clock over an in-memory link. concurrent: 1..3 client threads and 0..2 server threads create reliable/unreliable tubes at once (20 thread mixes), each tube carries a 24-byte marker naming it, both sides accept and read; oracles: identifiers distinct per (side, reliability) and of the side's parity, every created tube is accepted exactly once by the peer with the identifier, type and reliability its opener chose and delivers exactly its own marker, nothing is left in an accept queue. reuse: one side opens a tube, both exchange markers, both close, the side opens a second tube (same identifier once the first was reaped), with gap 0/2 s before the re-open and 0/5 s before the second tube's first write, reliable and unreliable, client- and server-opened; every one of the first 8 packets of each direction is a choice point {deliver, drop, duplicate, delay 50 ms, delay 3 s}; oracle: each incarnation reads only bytes written on that incarnation, accept yields incarnations in order with the right type. mixed: a reliable and an unreliable tube with the same number; one is closed by both ends and reaped; the survivor must still deliver, a third tube of the survivor's kind must get another number and be offered once with its type, markers stay apart (8 variants). unrel: message sizes {0,1,32767,32768,32769,65535,65536,65537,98305} and sequences on an unreliable tube; oracle: a write is refused or its message is delivered whole; every delivered message equals one accepted write (no fragment, merge, phantom); on a faithful link all accepted writes are delivered once.")
+	r.SetRule("two real muxers under the deterministic scheduler and virtual clock over an in-memory link. concurrent: 1..3 client threads and 0..2 server threads create reliable/unreliable tubes at once (20 thread mixes), each tube carries a 24-byte marker naming it, both sides accept and read; oracles: identifiers distinct per (side, reliability) and of the side's parity, every created tube is accepted exactly once by the peer with the identifier, type and reliability its opener chose and delivers exactly its own marker, nothing is left in an accept queue. reuse: one side opens a tube, both exchange markers, both close, the side opens a second tube (same identifier once the first was reaped), with gap 0/2 s before the re-open and 0/5 s before the second tube's first write, reliable and unreliable, client- and server-opened; every one of the first 8 packets of each direction is a choice point {deliver, drop, duplicate, delay 50 ms, delay 3 s}; oracle: each incarnation reads only bytes written on that incarnation, accept yields incarnations in order with the right type. interleave: one side opens two reliable tubes and writes four 16-byte chunks on each, alternating (every frame of the run has different bytes), the other side reads both to the end, every one of the first 12 packets of each direction a fault choice point; oracle: what a tube delivers is at every moment a prefix of what was written on that tube and complete in the end. mixed: a reliable and an unreliable tube with the same number; one is closed by both ends and reaped; the survivor must still deliver, a third tube of the survivor's kind must get another number and be offered once with its type, markers stay apart (8 variants). unrel: message sizes {0,1,32767,32768,32769,65535,65536,65537,98305} and sequences on an unreliable tube; oracle: a write is refused or its message is delivered whole; every delivered message equals one accepted write (no fragment, merge, phantom); on a faithful link all accepted writes are delivered once.")
 	r.Assume("sequentially consistent interleavings at synchronisation points; virtual time; packet faults only among the first K packets per direction")
 	r.Finish()
 }
